@@ -324,6 +324,25 @@ def mismatch_known(b, known):
 MALFORMED_VIOLATIONS = []
 
 
+CRASH_VIOLATIONS = []
+
+
+def package_crash(pid, stage, name, n, seed, exc):
+    """An exception that escaped from the package itself while a suite / oracle was feeding it generated VALID input
+    (the harness catches the exceptions it expects): the property cannot hold on that input.  Returns a violation
+    record, or None when the exception did not come out of the package (then it is an infrastructure failure)."""
+    tb = traceback.extract_tb(exc.__traceback__)
+    pkg = os.path.join(os.path.realpath(REPO), 'py_stringsimjoin')
+    frames = [f for f in tb if os.path.realpath(f.filename).startswith(pkg)]
+    if not frames:
+        return None
+    last = frames[-1]
+    where = '%s:%d in %s' % (os.path.relpath(last.filename, REPO), last.lineno, last.name)
+    return {'property': pid, 'what': 'the package raised %s on generated valid input (%s %s): %s: %s' % (type(exc).__name__, stage, name, where, str(exc)[:120]),
+            'case': {'entry': 'crash', 'stage': stage, 'name': name, 'n': n, 'traceback': ['%s:%d %s' % (os.path.relpath(f.filename, REPO), f.lineno, f.name) for f in frames[-6:]]},
+            'oracle': name, 'seed': seed, 'n': n}
+
+
 def run_suites(pid, tier, seed, stats, log, mult=1):
     import suites as S
     total, bad, per = 0, [], {}
@@ -333,7 +352,15 @@ def run_suites(pid, tier, seed, stats, log, mult=1):
         n = (nq * QUICK_SCALE if tier == 'quick' else nt) * mult
         rng = random.Random('%s-%s-%d' % (pid, name, seed))
         t0 = time.time()
-        cases = S.SUITES[name](rng, n, stats, **kw)
+        try:
+            cases = S.SUITES[name](rng, n, stats, **kw)
+        except Exception as e:      # noqa: BLE001
+            cv = package_crash(pid, 'suite', name, n, seed, e)
+            if cv is None:
+                raise
+            CRASH_VIOLATIONS.append(cv)
+            per[name] = {'cases': 0, 'mismatches': 0, 'distinct': 0, 'nontrivial': 0, 's': round(time.time() - t0, 1), 'sample': None, 'crashed': cv['what']}
+            continue
         if pid == 'C15':
             MALFORMED_VIOLATIONS.extend(S.malformed_accepted(cases))
         k, b = S.run_cases(cases)
@@ -361,6 +388,49 @@ def nontrivial(resp):
     return ok is not None
 
 
+def guarded(pid, name, seed, fn):
+    """run an exhaustive / extra oracle; an exception escaping from the package is a violation, not a crash of the check"""
+    try:
+        return fn()
+    except Infra:
+        raise
+    except Exception as e:      # noqa: BLE001
+        cv = package_crash(pid, 'oracle', name, 1, seed, e)
+        if cv is None:
+            raise
+        return [cv]
+
+
+def dispatch_oracle(O, name, rng, n, stats, props, known_hits):
+    if name == 'setsim':
+        return O.oracle_setsim(rng, n, stats, props)
+    if name == 'ed':
+        return O.oracle_edit_distance(rng, n, stats)
+    if name == 'filters':
+        return O.oracle_filters(rng, n, stats, props)
+    if name == 'matcher':
+        return O.oracle_matcher(rng, n, stats)
+    if name == 'pipeline':
+        return O.oracle_pipeline(rng, n, stats)
+    if name == 'schedule':
+        return O.oracle_schedule(rng, n, stats)
+    if name == 'history':
+        return O.oracle_history(rng, n, stats)
+    if name == 'laws':
+        return O.oracle_laws(rng, n, stats)
+    if name == 'validation':
+        return O.oracle_validation(rng, n, stats)
+    if name == 'converter':
+        kh = []
+        r = O.oracle_converter(rng, n, stats, kh)
+        if known_hits is not None:
+            known_hits += kh
+        return r
+    if name == 'profiler':
+        return O.oracle_profiler(rng, n, stats)
+    raise Infra('unknown oracle ' + name)
+
+
 def run_oracles(pid, tier, seed, stats, log, mult=1, known_hits=None):
     import oracle as O
     cfgp = PROPS[pid]
@@ -370,33 +440,15 @@ def run_oracles(pid, tier, seed, stats, log, mult=1, known_hits=None):
         n = (nq * QUICK_SCALE if tier == 'quick' else nt) * mult
         rng = random.Random('%s-o-%s-%d' % (pid, name, seed))
         t0 = time.time()
-        if name == 'setsim':
-            r = O.oracle_setsim(rng, n, stats, props)
-        elif name == 'ed':
-            r = O.oracle_edit_distance(rng, n, stats)
-        elif name == 'filters':
-            r = O.oracle_filters(rng, n, stats, props)
-        elif name == 'matcher':
-            r = O.oracle_matcher(rng, n, stats)
-        elif name == 'pipeline':
-            r = O.oracle_pipeline(rng, n, stats)
-        elif name == 'schedule':
-            r = O.oracle_schedule(rng, n, stats)
-        elif name == 'history':
-            r = O.oracle_history(rng, n, stats)
-        elif name == 'laws':
-            r = O.oracle_laws(rng, n, stats)
-        elif name == 'validation':
-            r = O.oracle_validation(rng, n, stats)
-        elif name == 'converter':
-            kh = []
-            r = O.oracle_converter(rng, n, stats, kh)
-            if known_hits is not None:
-                known_hits += kh
-        elif name == 'profiler':
-            r = O.oracle_profiler(rng, n, stats)
-        else:
-            raise Infra('unknown oracle ' + name)
+        try:
+            r = dispatch_oracle(O, name, rng, n, stats, props, known_hits)
+        except Infra:
+            raise
+        except Exception as e:      # noqa: BLE001
+            cv = package_crash(pid, 'oracle', name, n, seed, e)
+            if cv is None:
+                raise
+            r = [cv]
         # an oracle reports violations of several properties; this check owns its own property
         # (crashes of valid calls, reported as C15, count for every property: the property cannot hold on a crash)
         mine = [x for x in r if x['property'] == pid or (x['property'] == 'C15' and 'raised' in x['what'])]
@@ -409,7 +461,7 @@ def run_oracles(pid, tier, seed, stats, log, mult=1, known_hits=None):
     if mult == 1 and pid == 'C10':
         t0 = time.time()
         nmax, kmax = (150, 32) if tier == 'quick' else (700, 80)
-        g = O.oracle_split_exhaustive(nmax, kmax, stats)
+        g = guarded(pid, 'split_exhaustive', seed, lambda: O.oracle_split_exhaustive(nmax, kmax, stats))
         per['split_table_exhaustive'] = {'cases': stats.c.get('oracle.split_exhaustive.cases', 0), 'violations': len(g), 'nmax': nmax, 'kmax': kmax, 's': round(time.time() - t0, 1)}
         for x in g:
             x['oracle'] = 'exhaustive-grid'
@@ -419,16 +471,16 @@ def run_oracles(pid, tier, seed, stats, log, mult=1, known_hits=None):
     if mult == 1 and pid in ('C04', 'C14'):
         t0 = time.time()
         nmax = 40 if tier == 'quick' else 160
-        g = [x for x in O.oracle_size_grid(nmax, stats) if x['property'] == pid]
+        g = [x for x in guarded(pid, 'size_grid', seed, lambda: O.oracle_size_grid(nmax, stats)) if x['property'] == pid]
         per['size_window_grid_exhaustive'] = {'cases': stats.c.get('oracle.size_grid.points', 0), 'violations': len(g), 'nmax': nmax, 's': round(time.time() - t0, 1)}
         if pid == 'C04':
             t0 = time.time()
             u = 7 if tier == 'quick' else 9
-            g += O.oracle_suffix_exhaustive(u, stats)
+            g += guarded(pid, 'suffix_exhaustive', seed, lambda: O.oracle_suffix_exhaustive(u, stats))
             per['suffix_estimator_exhaustive'] = {'cases': stats.c.get('oracle.suffix_exhaustive.calls', 0), 'universe': u, 's': round(time.time() - t0, 1)}
             t0 = time.time()
             lab, labc = (5, 3) if tier == "quick" else (7, 5)
-            g += O.oracle_ed_filters_exhaustive(lab, labc, stats)
+            g += guarded(pid, 'ed_filters_exhaustive', seed, lambda: O.oracle_ed_filters_exhaustive(lab, labc, stats))
             per['ed_filters_exhaustive'] = {'cases': stats.c.get('oracle.ed_filters_exhaustive.checks', 0), 'strings': 'all over {a,b} up to %d, {a,b,c} up to %d' % (lab, labc), 's': round(time.time() - t0, 1)}
         for x in g:
             x['oracle'] = 'exhaustive-grid'
@@ -608,6 +660,20 @@ def do_replay(path):
                 for x in vv[:5]:
                     print('  ', x['what'], x.get('expected'), x.get('actual'))
                 return 1 if vv else 0
+        elif case.get('entry') == 'crash' and case.get('stage') == 'suite':
+            # the generated input that made the package raise: re-generate the suite with the same PRNG state
+            import suites as S
+            st = O.Stats()
+            spec = [sp for sp in PROPS[pid]['suites'] if sp[0] == case['name']][0]
+            rng = random.Random('%s-%s-%d' % (pid, case['name'], v.get('seed', 0)))
+            try:
+                S.SUITES[case['name']](rng, case['n'], st, **(spec[3] if len(spec) > 3 else {}))
+            except Exception as e:      # noqa: BLE001
+                cv = package_crash(pid, 'suite', case['name'], case['n'], v.get('seed', 0), e)
+                print('reproduced: %s' % (cv['what'] if cv else repr(e)))
+                return 1
+            print('the suite no longer raises')
+            return 0
         else:
             # deterministic re-run of the oracle that found it
             st = O.Stats()
@@ -666,6 +732,7 @@ def main():
         for x in MALFORMED_VIOLATIONS:
             x.update({'oracle': 'malformed-stream', 'seed': seed, 'n': 1})
         viols += MALFORMED_VIOLATIONS
+        viols += CRASH_VIOLATIONS
         for prop, site in known_hits:
             for k in known['findings']:
                 if k['property'] == prop and k['site'].startswith(site.split('(')[0]):
